@@ -341,7 +341,7 @@ class Engine2(Engine):
             if isinstance(v, SeqV): setref(args[0], SeqV(const_int(0), v.elem)); return [(st, v)]
             if isinstance(v, IntV): setref(args[0], const_int(0)); return [(st, v)]
         # --- total integer helpers (refactorings replace guarded `a - b` by these)
-        if re.search(r"impl (u|i)\d+>::(checked_sub|checked_add)$|impl usize>::(checked_sub|checked_add)$", n) and len(args) == 2 and isinstance(args[0], IntV) and isinstance(args[1], IntV):
+        if re.search(r"(core::num|impl (u|i)(\d+|size)>)::(checked_sub|checked_add)$", n) and len(args) == 2 and isinstance(args[0], IntV) and isinstance(args[1], IntV):
             a, b = lin_of(st, args[0]), lin_of(st, args[1])
             (alo, ahi), (blo, bhi) = int_of(st, args[0]), int_of(st, args[1])
             outs = []
